@@ -39,12 +39,15 @@ Methods(cfg) ==
     [] cfg.kind = "collector" -> {"get"}
     [] OTHER -> {"call"}
 HasArg(m) == m \in {"call", "c1", "c2", "c3"}
-Cfg(k, n, n2, mode, d) == [kind |-> k, n |-> n, n2 |-> n2, mode |-> mode, d |-> d, w |-> 2]
+\* cw: form of the filter condition function: 0 = bit 0 of the argument, 1 = the argument with bit 0 cleared (a
+\* multi-bit value; "non-zero return value is interpreted as true")
+Cfg(k, n, n2, mode, d) == [kind |-> k, n |-> n, n2 |-> n2, mode |-> mode, d |-> d, w |-> 2, cw |-> 0]
+CfgW(k, mode, d) == [kind |-> k, n |-> 1, n2 |-> 0, mode |-> mode, d |-> d, w |-> 2, cw |-> 1]
 Configs ==
   {Cfg("connect", 1, 1, "-", 0), Cfg("connect", 1, 1, "val", 0), Cfg("crossbar", 1, 2, "-", 0), Cfg("crossbar", 2, 1, "-", 0), Cfg("crossbar", 2, 2, "-", 0),
    Cfg("map", 1, 0, "fun", 0), Cfg("map", 1, 0, "meth", 0),
    Cfg("filter", 1, 0, "if", 0), Cfg("filter", 1, 0, "if", 3), Cfg("filter", 1, 0, "cond", 0), Cfg("filter", 1, 0, "cond", 3),
-   Cfg("filter", 1, 0, "meth", 3),
+   Cfg("filter", 1, 0, "meth", 3), CfgW("filter", "if", 3), CfgW("filter", "cond", 3),
    Cfg("product", 1, 0, "first", 0), Cfg("product", 2, 0, "first", 0), Cfg("product", 2, 0, "sum", 0), Cfg("product", 3, 0, "sum", 0),
    Cfg("tryproduct", 1, 0, "sd", 0), Cfg("tryproduct", 2, 0, "sd", 0), Cfg("tryproduct", 2, 0, "none", 0), Cfg("tryproduct", 3, 0, "sd", 0),
    Cfg("nonexcl", 2, 0, "arg", 0), Cfg("nonexcl", 3, 0, "noarg", 0),
@@ -75,14 +78,14 @@ AllRdy(cfg, inp) == \A i \in 1..cfg.n : inp.rdy[i] = 1
 AnyCaller(cfg, calls) == \E i \in 1..cfg.n : Ran(calls, Callers[i])
 TheArg(cfg, calls) == IF AnyCaller(cfg, calls) THEN calls[Callers[CHOOSE i \in 1..cfg.n : Ran(calls, Callers[i])]] ELSE 0
 \* condition of the filter for an argument
-FCond(cfg, arg, inp) == IF cfg.mode = "meth" THEN inp.cval # 0 ELSE Odd(arg)
+FCond(cfg, arg, inp) == IF cfg.mode = "meth" THEN inp.cval # 0 ELSE IF cfg.cw = 1 THEN arg >= 2 ELSE Odd(arg)
 
 Callable(cfg, st, m, arg, calls, inp) ==
   CASE cfg.kind = "map" -> inp.trdy = 1 /\ (cfg.mode = "meth" => inp.irdy = 1 /\ inp.ordy = 1)
     \* MethodFilter: with m.If the target stays in the call tree (blocks even when not called);
     \* with use_condition the method does not block on an unready target when the condition is false
     [] cfg.kind = "filter" -> CASE cfg.mode = "if" -> inp.trdy = 1
-                                [] cfg.mode = "cond" -> ~Odd(arg) \/ inp.trdy = 1
+                                [] cfg.mode = "cond" -> ~FCond(cfg, arg, inp) \/ inp.trdy = 1
                                 [] OTHER -> inp.trdy = 1 /\ inp.crdy = 1
     [] cfg.kind = "product" -> AllRdy(cfg, inp)
     [] cfg.kind = "tryproduct" -> TRUE
@@ -202,7 +205,7 @@ StepProp(cfg, st, g, req, calls, inp, res, obs, st2) ==
          \* blocking: use_condition=False waits for the target even when it is not called;
          \* use_condition=True does not block on an unready target when the condition is false
          /\ (rq /\ cfg.mode = "if") => (c <=> inp.trdy = 1)
-         /\ (rq /\ cfg.mode = "cond") => (c <=> (~Odd(req["call"]) \/ inp.trdy = 1))
+         /\ (rq /\ cfg.mode = "cond") => (c <=> (~FCond(cfg, req["call"], inp) \/ inp.trdy = 1))
          /\ (rq /\ cfg.mode = "meth") => (c <=> (inp.trdy = 1 /\ inp.crdy = 1))
          /\ cfg.mode = "meth" => (obs.cran = B(c) /\ (c => obs.carg = a))
     [] cfg.kind = "product" ->
